@@ -147,6 +147,7 @@ type Scenario struct {
 	Preset        bool
 	Init          func(w *World) // after client construction, before the first step
 	MaxConns      int
+	AdoptProp     string               // property an AdoptSession failure is attributed to (default C02)
 	LazyExchanges bool                 // the application does not read its exchange channels before the end
 	Burst         bool                 // the broker sends the whole inbound script right after CONNACK
 	Mute          func(p *Packet) bool // the broker consumes these packets without reacting
@@ -891,6 +892,9 @@ func (w *World) crash(dmg []damage) {
 	w.curT = nil
 	if err := w.newClient(true); err != nil {
 		prop := "C02"
+		if w.scn.AdoptProp != "" {
+			prop = w.scn.AdoptProp
+		}
 		if len(dmg) > 0 {
 			prop = "C16"
 		}
